@@ -1,20 +1,26 @@
 import FlacVerif.Driver.SinkDrv
+import FlacVerif.Driver.StreamDrv
 open FlacVerif Proto Drv
 
-def handle (line : String) : Option String :=
+def renderAll (id : String) (vs : List Verdict) (stats : List String) : List String :=
+  let bad := vs.filter fun v => match v with | .ok => false | _ => true
+  (if bad.isEmpty then [s!"OK {id}"] else bad.map (·.render id)) ++ stats.map (fun s => s!"STAT {s}")
+
+def handle (line : String) : List String :=
   let (kind, r) := parseRecord line
   let id := r.get "id"
+  if line.startsWith "#" then [] else
   match kind with
-  | "" => none
-  | "sink" => some ((sinkRecord r).render id)
-  | k => some s!"SKIP {id} unknown-record-kind-{k}"
+  | "" => []
+  | "sink" => [(sinkRecord r).render id]
+  | "stream" => let (vs, st) := streamRecord r; renderAll id vs st
+  | k => [s!"SKIP {id} unknown-record-kind-{k}"]
 
 partial def loop (h : IO.FS.Stream) (out : IO.FS.Stream) : IO Unit := do
   let line ← h.getLine
   if line.isEmpty then return ()
-  match handle line with
-  | some s => out.putStrLn s
-  | none => pure ()
+  for s in handle line do
+    out.putStrLn s
   loop h out
 
 def main : IO Unit := do
